@@ -276,6 +276,19 @@ def r5(ctx):
     cap = [x for x in fam if x.path.endswith("next::{closure#0}") and any("include_empty" in n for n in x.upvars)]
     ctx.check(total >= 2 and bool(cap), "C05.R5", QNEXT, "include_empty-honoured-on-both-paths",
               "include_empty is read %d times (%s); the records-path filter closure captures it: %s" % (total, sorted(reads), bool(cap)), b.sp)
+    # on the key-ordered path the emptiness test is applied to the selector's OUTPUT: the value tested
+    # must have the selector's result among its origins (filtering before the selection would let an
+    # older non-empty entry of another author resurface behind a newer deletion marker)
+    ie = [(bi, t) for bi, t in b.calls() if t["f"].get("name") == "is_empty" and callee_matches(t, r"sync::Record::is_empty$")]
+    pu = [(bi, t) for bi, t in b.calls() if callee_matches(t, r"LatestPerKeySelector::push$")]
+    if len(ie) == 1 and len(pu) == 1:
+        srcs = trace(b, ie[0][1]["a"][0])
+        from_sel = any(o.kind == "call" and o.data is pu[0][1] for o in srcs)
+        ctx.check(from_sel, "C05.R5", QNEXT, "empty-filter-after-latest-per-key-selection",
+                  "the entry tested for emptiness derives from the selector's result" if from_sel else
+                  "the emptiness filter is applied before the latest-per-key selection: a newer deletion marker no longer hides older entries of other authors for that key", ie[0][1]["sp"])
+    else:
+        ctx.bad("C05.R5", QNEXT, "empty-filter-after-latest-per-key-selection", "expected one Record::is_empty test and one selector push in next() (found %d/%d) (UNSUPPORTED-FORM)" % (len(ie), len(pu)), b.sp)
     ve = f.body("store::fs::query::value_is_empty")
     ri = f.body("sync::Record::is_empty")
     ctx.touch(ve, ri)
